@@ -615,9 +615,12 @@ Definition stdout_of (rs : list frec) : bytes :=
 Definition end_request : bytes := [1; 3; 0; 1; 0; 8; 0; 0; 0; 0; 0; 0; 0; 0; 0; 0].
 
 (* writePairs: the value is cut to maxWrite-8-len(k) bytes (to nothing when the name leaves no
-   room) when 8+len(k)+len(v) > maxWrite; result = length of the value sent *)
+   room) when the encoded pair (each length takes 1 or 4 bytes) exceeds maxWrite; result = length
+   of the value sent *)
+Definition size_len (n : Z) : Z := if (127 <? n)%Z then 4%Z else 1%Z.     (* encodeSize's return *)
+Definition enc_pair_len (klen vlen : Z) : Z := (size_len klen + size_len vlen + klen + vlen)%Z.
 Definition write_pair_len (klen vlen : Z) : res Z :=
-  if (65500 <? 8 + klen + vlen)%Z then
+  if (65500 <? enc_pair_len klen vlen)%Z then
     let vl0 := (65500 - 8 - klen)%Z in
     let vl := if (vl0 <? 0)%Z then 0%Z else vl0 in               (* if vl < 0 { vl = 0 } *)
     if (vl <? 0)%Z || (vlen <? vl)%Z then Panic else Ok vl        (* v = v[:vl] *)
@@ -898,9 +901,12 @@ Definition judge (c : case) : N :=
                    | Panic => op
                    | Ok l => negb op && (l =? ov)%Z
                    end in
+      (* no panic; a pair that fits one 65500-byte record arrives whole; otherwise the value is cut
+         so that 8+len(k)+len(v') is the record size, or to nothing when the name leaves no room *)
+      let fits := (enc_pair_len klen vlen <=? 65500)%Z in
       verdict agree (negb op && (ov <=? vlen)%Z &&
-                     ((8 + klen + vlen <=? 65500)%Z || (8 + klen + ov =? 65500)%Z || ((65492 <? klen)%Z && (ov =? 0)%Z))
-                     && ((65500 <? 8 + klen + vlen)%Z || (ov =? vlen)%Z))
+                     (fits || (8 + klen + ov =? 65500)%Z || ((65492 <? klen)%Z && (ov =? 0)%Z))
+                     && (negb fits || (ov =? vlen)%Z))
   | CStatus tok obs ocode =>
       let agree := match fcgi_status tok with
                    | Ok (Some c) => (obs =? 0) && (c =? ocode)%Z
